@@ -476,6 +476,11 @@ func (u *Unit) overflow(st *State, r Term, t types.Type, where string) {
 		return
 	}
 	b := t.Underlying().(*types.Basic)
+	if b.Kind() == types.Uint64 || b.Kind() == types.Uint || b.Kind() == types.Uintptr {
+		// unsigned 64-bit counters (revisions, generations): wrap-around is defined behaviour in Go and
+		// needs 2^64 increments; they are treated as mathematical (listed as an assumption in the evidence)
+		return
+	}
 	lo, hi := intRange(b)
 	goal := Term{fmt.Sprintf("(and (<= %s %s) (<= %s %s))", lo, r.S, r.S, hi), SBool}
 	u.oblige("arith.no_overflow", fc.Tags, "", st.pc, goal, where, "")
